@@ -10,7 +10,7 @@ from .core import (Val, Unsupported, TPoison, T_EMPTY, T_LAMBDA, T_CLASS, T_BUIL
 
 SPEC_FORMS = {"old", "pre", "forall", "exists", "implies", "iff", "forall_obj", "forall_int", "exists_int",
               "let", "ite", "seq_eq", "is_none", "unchanged", "typeis", "elems", "idx_of", "count_int",
-              "forall_str", "fresh_obj", "unchanged_except", "to_int", "to_real", "forall_int_t", "sum_of", "sum_upto", "is_perm", "sorted_by", "stable_wrt", "ghost_int"}
+              "forall_str", "fresh_obj", "unchanged_except", "to_int", "to_real", "forall_int_t", "sum_of", "sum_upto", "is_perm", "sorted_by", "stable_wrt", "ghost_int", "same", "at_head", "flat_elems"}
 
 
 def _forall_pat(vs, body, patterns):
@@ -301,9 +301,23 @@ class CallMixin:
                 except Unsupported:
                     self.oblige("safe", "argtype.%s.%s" % (qual, p), False, st, node)
                     raise
+        variants = self.split_on_merged_heap(st)
         for i, r in enumerate(c.requires):
-            g = self.eval_spec(r, env, st, old_heap=st.heap, old_env=env)
-            self.oblige("pre", "%s#%d" % (qual, i), g, st, node, info={"callee": qual, "clause": r})
+            if variants is None:
+                g = self.eval_spec(r, env, st, old_heap=st.heap, old_env=env)
+                self.oblige("pre", "%s#%d" % (qual, i), g, st, node, info={"callee": qual, "clause": r})
+            else:
+                # the heap is an if-then-else merge of two branches: prove the precondition on each branch separately
+                # (each branch state is one in which the clause has usually been established literally)
+                for tag, cnd, hv in variants:
+                    sv = st.copy()
+                    sv.heap = hv
+                    sv.path.append(cnd)
+                    g = self.eval_spec(r, env, sv, old_heap=hv, old_env=env)
+                    self.oblige("pre", "%s#%d[%s]" % (qual, i, tag), g, sv, node, info={"callee": qual, "clause": r})
+                # the clause itself, in the merged state, for the code that follows
+                g = self.eval_spec(r, env, st, old_heap=st.heap, old_env=env)
+                self.assume(z3.Implies(zbool(self.live(st)), g), st)
         old_heap = dict(st.heap)
         # havoc frame
         live = self.live(st)
@@ -350,6 +364,21 @@ class CallMixin:
             return Val(TNone, self.S.none_val)
         return res
 
+    def split_on_merged_heap(self, st):
+        """if heap arrays are top-level ite(c, a, b) on one common condition c, return the two branch heaps"""
+        if self.mode == "UNROLL" or self.binders:
+            return None
+        cond = getattr(st, "last_merge", None)
+        if cond is None or not any(z3.is_app_of(arr, z3.Z3_OP_ITE) and arr.arg(0).eq(cond) for arr in st.heap.values()):
+            return None
+        ha, hb = {}, {}
+        for k, arr in st.heap.items():
+            if z3.is_app_of(arr, z3.Z3_OP_ITE) and arr.arg(0).eq(cond):
+                ha[k], hb[k] = arr.arg(1), arr.arg(2)
+            else:
+                ha[k] = hb[k] = arr
+        return [("then", cond, ha), ("else", z3.Not(cond), hb)]
+
     def assume_footprint(self, old_arr, new_arr, fpv, st):
         x = self.qvar("r", self.S.Ref)
         if fpv.ty.kind == "Ref":
@@ -392,38 +421,35 @@ class CallMixin:
         """boolean value of a specification; memoised on (text, argument terms, the heap arrays it reads) so that the
         same clause evaluated twice in the same state is the SAME term (a precondition that literally is an earlier
         assumption is then discharged syntactically instead of by re-proving an alpha-equivalent quantified formula)"""
-        if not isinstance(expr, str) or self.binders or self.loop_entry or self.mode == "UNROLL":
+        if not isinstance(expr, str) or self.binders or self.mode == "UNROLL" or "pre(" in expr or "at_head(" in expr:
             return self.truth(self.eval_spec_val(expr, env, st, old_heap, old_env))
         ekey = (expr, tuple(sorted((k, v.z.get_id()) for k, v in env.items() if v is not None and z3.is_expr(v.z))),
                 tuple(sorted((k, v.z.get_id()) for k, v in (old_env or {}).items() if v is not None and z3.is_expr(v.z))))
+        oh = old_heap if old_heap is not None else self.old_heap
+
+        def current(tag, key):
+            h = st.heap if tag == "new" else oh
+            cur = h.get(key) if h is not None else None
+            return (cur if cur is not None else self.initial_heap_arr(key)).get_id()
         for reads, val in self.spec_value_cache.get(ekey, []):
-            ok = True
-            for (which, key), aid in reads.items():
-                h = st.heap if which == "new" else (old_heap if old_heap is not None else self.old_heap)
-                cur = h.get(key) if h is not None else None
-                if cur is None:
-                    cur = self.initial_heap_arr(key)
-                if cur.get_id() != aid:
-                    ok = False
-                    break
-            if ok:
+            if all(current(tag, key) == aid for (tag, key), aid in reads.items()):
                 return val
-        saved_log = self.read_log
+        saved_log, saved_tag = self.read_log, self.heap_tag
         self.read_log = []
+        self.heap_tag = "new"
         try:
             val = self.truth(self.eval_spec_val(expr, env, st, old_heap, old_env))
             log = self.read_log
         finally:
-            self.read_log = saved_log
+            self.read_log, self.heap_tag = saved_log, saved_tag
         reads = {}
-        oh = old_heap if old_heap is not None else self.old_heap
-        for key, aid in log:
-            cur_new = st.heap.get(key)
-            if cur_new is not None and cur_new.get_id() == aid:
-                reads[("new", key)] = aid
-            else:
-                reads[("old", key)] = aid
-        self.spec_value_cache.setdefault(ekey, []).append((reads, val))
+        ok = True
+        for tag, key, aid in log:
+            if reads.get((tag, key), aid) != aid:
+                ok = False          # the same attribute read in two different heaps under one tag: do not cache
+            reads[(tag, key)] = aid
+        if ok:
+            self.spec_value_cache.setdefault(ekey, []).append((reads, val))
         return val
 
     def parse_spec(self, text):
@@ -441,12 +467,39 @@ class CallMixin:
             raise Unsupported("ghost definition %s arity" % name, node)
         sub = st.copy()
         sub.env = dict(zip(params, args))
-        # ghost definitions may use `result`-free global names only
+        cacheable = (not self.binders and self.mode != "UNROLL" and "old(" not in body and "pre(" not in body
+                     and "at_head(" not in body and all(z3.is_expr(a.z) for a in args))
+        key = None
+        if cacheable:
+            # the same definition applied to the same arguments in the same heap is the SAME term
+            key = (name, tuple(a.z.get_id() for a in args))
+            for reads, val in self.def_cache.get(key, []):
+                if all((st.heap.get(k) if st.heap.get(k) is not None else self.initial_heap_arr(k)).get_id() == aid
+                       for k, aid in reads.items()):
+                    if self.read_log is not None:
+                        self.read_log.extend((self.heap_tag, k, aid) for k, aid in reads.items())
+                    return val
+        saved_log = self.read_log
+        self.read_log = [] if cacheable else saved_log
         self.spec += 1
         try:
-            return self.ev(self.parse_spec(body), sub)
+            val = self.ev(self.parse_spec(body), sub)
+            log = self.read_log
         finally:
             self.spec -= 1
+            self.read_log = saved_log
+        if cacheable:
+            if saved_log is not None:
+                saved_log.extend(log)
+            rd = {}
+            okc = True
+            for tag, k, aid in log:
+                if rd.get(k, aid) != aid:
+                    okc = False
+                rd[k] = aid
+            if okc:
+                self.def_cache.setdefault(key, []).append((rd, val))
+        return val
 
     def spec_form(self, name, node, st):
         a = node.args
@@ -463,11 +516,25 @@ class CallMixin:
                 sub.env = env
             sub.heap = dict(self.old_heap)
             saved = self.in_old
+            saved_tag = self.heap_tag
             self.in_old = False
+            self.heap_tag = "old"
             try:
                 return self.ev(a[0], sub)
             finally:
                 self.in_old = saved
+                self.heap_tag = saved_tag
+        if name == "at_head":
+            if not self.loop_head:
+                raise Unsupported("at_head() outside a step clause", node)
+            heap, env = self.loop_head[-1]
+            sub = st.copy()
+            e2 = dict(st.env)
+            for k2, v2 in env.items():
+                e2[k2] = v2
+            sub.env = e2
+            sub.heap = dict(heap)
+            return self.ev(a[0], sub)
         if name == "pre":
             if not self.loop_entry:
                 raise Unsupported("pre() outside a loop invariant", node)
@@ -554,6 +621,38 @@ class CallMixin:
                 return Val(rt, acc)
             ps, bvs = self.prefix_sum_fn(n, g, rt, st, node)
             return Val(rt, ps(*bvs, upto))
+        if name == "flat_elems":
+            # flat_elems(outer, lambda o: o.inner_list): the set of all elements of all inner lists
+            outer = self.ev(a[0], st)
+            lam = self.ev(a[1], st)
+            if outer.ty.kind == "EmptyList":
+                return Val(TSet(TRef(None)), z3.K(self.S.Ref, False))
+            k = self.qvar("k")
+            inner0 = self.apply_fn(lam, [Val(outer.ty.elem, self.list_get(outer, z3.IntVal(0)))], st, node)
+            et = inner0.ty.elem
+            x = self.qvar("x", self.S.sort(et))
+            if self.mode == "UNROLL":
+                sset = z3.K(self.S.sort(et), False)
+                for i in range(self.bound):
+                    inner = self.apply_fn(lam, [Val(outer.ty.elem, self.list_get(outer, z3.IntVal(i)))], st, node)
+                    for j in range(self.bound):
+                        sset = z3.If(z3.And(z3.IntVal(i) < self.list_len(outer), z3.IntVal(j) < self.list_len(inner)),
+                                     z3.Store(sset, self.list_get(inner, z3.IntVal(j)), True), sset)
+                return Val(TSet(et), sset)
+            self.binders.append((k, z3.And(k >= 0, k < self.list_len(outer))))
+            try:
+                inner = self.apply_fn(lam, [Val(outer.ty.elem, self.list_get(outer, k))], st, node)
+                mem = self.member(Val(et, x), inner, node)
+            finally:
+                self.binders.pop()
+            return Val(TSet(et), z3.Lambda([x], z3.Exists([k], z3.And(k >= 0, k < self.list_len(outer), mem))))
+        if name == "same":
+            # identical value (same term in the logic): what a frame gives for an untouched attribute
+            x, y = self.ev(a[0], st), self.ev(a[1], st)
+            t = self.unify(x.ty, y.ty)
+            if t.kind in ("Poison", "EmptyList"):
+                return Val(TBool, self.val_eq(x, y, node))
+            return Val(TBool, self.coerce(x, t, node).z == self.coerce(y, t, node).z)
         if name == "ghost_int":
             # ghost_int('name', obj): an uninterpreted integer-valued function of an object (e.g. a rank that
             # witnesses acyclicity); as a precondition it means "for every such function"
